@@ -17,6 +17,7 @@ Not decided: promptness, TCP behaviour, retry-elsewhere (C06), all cut offsets a
 """
 from ..inline import inline_view
 from ..mir import AnchorLost
+from ..inline import is_new_function
 from ..util import closure_family, df_of, fn_short, in_set, backward_slice, switch_on, switch_edges, yields, callers_keys, operand_path, path_last
 
 C = "scylla::network::connection::"
@@ -65,6 +66,22 @@ def r2_r5(ctx, facts):
                 prop = True
         r2.instance("header-error-propagated", prop, "the read_exact result must be propagated with `?`", rex[0].span)
     rbs = b.calls_to("AsyncReadExt::read_buf")
+    outer = b
+    helper_call = None
+    if not rbs:
+        # the body loop may have been moved into a new `async fn` helper awaited here: analyse the loop in the helper's future
+        for bb0, c0 in outer.calls():
+            res = c0.callee.get("res") or ""
+            if bb0 in outer.live_blocks and res.endswith("::{closure#0}") and is_new_function(res[:-len("::{closure#0}")]) and facts.body(res) is not None:
+                hb = facts.body(res)
+                if hb.calls_to("AsyncReadExt::read_buf"):
+                    # the arguments the helper was created with: operands of the coroutine aggregate
+                    ops = [st[2][2] for bbx in outer.live_blocks for st in outer.stmts(bbx)
+                           if st[0] == "A" and st[2][0] == "agg" and st[2][1][0] == "coroutine" and st[2][1][1] == res]
+                    b, helper_call = hb, (ops[0] if ops else [])
+                    df = df_of(b, facts)
+                    rbs = b.calls_to("AsyncReadExt::read_buf")
+                    break
     if len(rbs) != 1:
         raise AnchorLost("read_response_frame: expected exactly one read_buf call in the body loop, found %d (the short-read/EOF detection is anchored on it)" % len(rbs))
     rb = rbs[0]
@@ -116,11 +133,20 @@ def r2_r5(ctx, facts):
             good = False
     r2.instance("ok-only-when-body-complete", good, "Ok((params, opcode, body)) must be reachable only where has_remaining_mut() is false, i.e. `length` bytes were read", b.stmt_span(oks[0][1]))
     lim = b.calls_to("BufMut::limit")
-    get32 = b.calls_to("Buf::get_u32")
+    get32 = outer.calls_to("Buf::get_u32")
     okl = False
     if lim and get32:
-        locs, _, _ = backward_slice(b, lim[0].args[1])
-        okl = get32[0].dest[0] in locs
+        if helper_call is None:
+            locs, _, _ = backward_slice(b, lim[0].args[1])
+            okl = get32[0].dest[0] in locs
+        else:
+            # the declared length travels into the helper as an argument
+            locs = set()
+            for a_ in helper_call:
+                locs |= backward_slice(outer, a_)[0]
+            okl = get32[0].dest[0] in locs
+    b_loop, b = b, outer
+    df = df_of(b, facts)
     r2.instance("limit-is-declared-length", okl, "the body buffer must be limited to the header's declared length", lim[0].span if lim else b.span)
     # R5: version checks
     errs = {}
